@@ -251,9 +251,11 @@ func more2CacheWriteBack(p *Program, r *Report) {
 	for _, b := range f.Blocks {
 		for _, in := range b.Instrs {
 			if mu, ok := in.(*ssa.MapUpdate); ok {
+				// the cache's map: a map held in a field (of the receiver)
 				for _, rt := range Origins(mu.Map, nil) {
-					if rt.Kind == "field" && rt.Desc == "items" {
+					if rt.Kind == "field" {
 						ups = append(ups, in)
+						break
 					}
 				}
 			}
@@ -572,15 +574,13 @@ func more2ChecksumTable(p *Program, r *Report) {
 			r.Viol(rule, fnName(f)+"/input-struct", p.Pos(f.Pos()), "cannot find the input struct with Checksum fields")
 			continue
 		}
-		// rows: struct literals of type hashConfig with fields value, hashType
+		// rows: elements of a struct table one field of which is set from a Checksum<ALG> field of the input and
+		// another to a constant string (the hash type); neither the row type nor its field names matter
 		rows := map[string]string{}
 		for _, b := range f.Blocks {
 			for _, in := range b.Instrs {
 				fa, ok := in.(*ssa.FieldAddr)
-				if !ok || !strings.HasSuffix(typeStr(fa.X.Type()), "hashConfig") {
-					continue
-				}
-				if fieldName(fa.X.Type(), fa.Field) != "value" {
+				if !ok {
 					continue
 				}
 				fld := ""
@@ -591,11 +591,14 @@ func more2ChecksumTable(p *Program, r *Report) {
 						}
 					}
 				}
-				// sibling field hashType of the same element
+				if fld == "" {
+					continue
+				}
+				// sibling field of the same element holding a constant string
 				ht := ""
 				if fa.X.Referrers() != nil {
 					for _, ref := range *fa.X.Referrers() {
-						if fb, ok := ref.(*ssa.FieldAddr); ok && fieldName(fb.X.Type(), fb.Field) == "hashType" {
+						if fb, ok := ref.(*ssa.FieldAddr); ok && fb != fa && fb.Field != fa.Field {
 							for _, s := range storesTo(fb) {
 								if cs, ok := constString(s.Val); ok {
 									ht = cs
@@ -604,7 +607,7 @@ func more2ChecksumTable(p *Program, r *Report) {
 						}
 					}
 				}
-				if fld != "" {
+				if ht != "" || rows[fld] == "" {
 					rows[fld] = ht
 				}
 			}
@@ -628,10 +631,32 @@ func more2ChecksumTable(p *Program, r *Report) {
 
 func more2MarkerFilterUnconditional(p *Program, r *Report) {
 	rule := "R-C07-7"
-	r.Rule(rule, "a key whose current version is a delete marker is never listed: in the listing callback (posix fileToObj) the delete-marker test is reachable without passing any edge that depends on the bucket's versioning status (markers made while versioning was Enabled remain after it is Suspended)", 1)
-	outer := p.Func(posixP + "fileToObj")
+	r.Rule(rule, "a key whose current version is a delete marker is never listed: in the listing callback (the function value posix ListObjects/ListObjectsV2 pass to backend.Walk) the delete-marker test is reachable without passing any edge that depends on the bucket's versioning status (markers made while versioning was Enabled remain after it is Suspended)", 1)
+	// the subject is found by role: the function value that posix's ListObjects / ListObjectsV2 hand to backend.Walk
+	// as the per-entry callback
+	outer := p.Func(posixP + "ListObjects")
+	var cbs []*ssa.Function
+	for _, ln := range []string{"ListObjects", "ListObjectsV2"} {
+		lf := p.Func(posixP + ln)
+		for _, c := range callsTo(lf, "backend.Walk") {
+			for _, a := range callArgs(c) {
+				if _, isSig := a.Type().Underlying().(*types.Signature); !isSig {
+					continue
+				}
+				for _, g := range funcValuesOf(a) {
+					dup := false
+					for _, h := range cbs {
+						dup = dup || h == g
+					}
+					if !dup {
+						cbs = append(cbs, g)
+					}
+				}
+			}
+		}
+	}
 	n := 0
-	for _, f := range outer.AnonFuncs {
+	for _, f := range cbs {
 		for _, c := range callsTo(f, posixP+"isObjDeleteMarker") {
 			n++
 			var cut []edge
@@ -741,21 +766,62 @@ func more2VersionCopySize(p *Program, r *Report) {
 	rule := "R-C09-6"
 	r.Rule(rule, "a saved version is as long as the object it saves: the size createObjVersion preallocates its copy with is, at every call site, the Size() of the stat of the existing object (not the length of the incoming body), and inside createObjVersion that parameter is what openTmpFile receives", 3)
 	cf := p.Func(posixP + "createObjVersion")
-	var sizeParam *ssa.Parameter
-	for _, prm := range cf.Params {
-		if typeStr(prm.Type()) == "int64" {
-			sizeParam = prm
+	// what sizes the copy: the int64 handed to openTmpFile, traced to a parameter of createObjVersion or to a
+	// field of a struct parameter
+	paramIdx, field := -1, ""
+	pidx := func(v ssa.Value) int {
+		for i, prm := range cf.Params {
+			if v == ssa.Value(prm) {
+				return i
+			}
 		}
+		return -1
 	}
-	if sizeParam == nil {
-		r.Viol(rule, fnName(cf)+"/size-parameter", p.Pos(cf.Pos()), "createObjVersion has no int64 size parameter")
-		return
-	}
-	idx := -1
-	for i, prm := range cf.Params {
-		if prm == sizeParam {
-			idx = i - 1 // minus receiver
+	var trace func(v ssa.Value, depth int) bool
+	trace = func(v ssa.Value, depth int) bool {
+		if depth > 6 {
+			return false
 		}
+		switch x := v.(type) {
+		case *ssa.Parameter:
+			paramIdx = pidx(x)
+			return paramIdx >= 0
+		case *ssa.Field:
+			if trace(x.X, depth+1) {
+				field = fieldName(x.X.Type(), x.Field)
+				return true
+			}
+		case *ssa.UnOp:
+			if x.Op != token.MUL {
+				return false
+			}
+			switch ad := x.X.(type) {
+			case *ssa.FieldAddr:
+				if al, ok := ad.X.(*ssa.Alloc); ok {
+					for _, st := range storesTo(al) {
+						if trace(st.Val, depth+1) {
+							field = fieldName(ad.X.Type(), ad.Field)
+							return true
+						}
+					}
+				}
+				if trace(ad.X, depth+1) { // pointer to struct parameter
+					field = fieldName(ad.X.Type(), ad.Field)
+					return true
+				}
+			case *ssa.Alloc:
+				for _, st := range storesTo(ad) {
+					if trace(st.Val, depth+1) {
+						return true
+					}
+				}
+			}
+		case *ssa.ChangeType:
+			return trace(x.X, depth+1)
+		case *ssa.Convert:
+			return trace(x.X, depth+1)
+		}
+		return false
 	}
 	okIn := false
 	for _, c := range callsIn(cf) {
@@ -763,27 +829,42 @@ func more2VersionCopySize(p *Program, r *Report) {
 			continue
 		}
 		for _, a := range callArgs(c) {
-			if a == ssa.Value(sizeParam) {
+			if typeStr(a.Type()) == "int64" && trace(a, 0) {
 				okIn = true
 			}
 		}
 	}
-	r.Check(okIn, rule, fnName(cf)+"/size->openTmpFile", p.Pos(cf.Pos()), "the size parameter sizes the copy", "createObjVersion does not preallocate its copy with the size it is given")
+	r.Check(okIn, rule, fnName(cf)+"/size->openTmpFile", p.Pos(cf.Pos()), "a size given by the caller sizes the copy", "createObjVersion does not preallocate its copy with a size it is given by its caller")
+	if !okIn {
+		return
+	}
 	n := 0
 	for _, f := range p.FuncsIn("backend/posix") {
 		k := 0
 		for _, c := range callsTo(f, posixP+"createObjVersion") {
 			k++
 			n++
-			a := callArgs(c)[idx]
-			fromStat := false
+			args := c.Common().Args
+			if paramIdx >= len(args) {
+				continue
+			}
+			vals := []ssa.Value{args[paramIdx]}
+			if field != "" {
+				fs, _ := litFields(args[paramIdx])
+				vals = fs[field]
+			}
+			fromStat := len(vals) > 0
 			other := ""
-			for _, rt := range terminalRoots(Origins(a, nil)) {
-				if rt.Kind == "call" && strings.HasSuffix(rt.Desc, ".Size") {
-					fromStat = true
-				} else if rt.Kind != "const" {
-					other = rt.String()
+			for _, a := range vals {
+				sawSize := false
+				for _, rt := range terminalRoots(Origins(a, nil)) {
+					if rt.Kind == "call" && strings.HasSuffix(rt.Desc, ".Size") {
+						sawSize = true
+					} else if rt.Kind != "const" {
+						other = rt.String()
+					}
 				}
+				fromStat = fromStat && sawSize
 			}
 			r.Check(fromStat && other == "", rule, fnName(f)+"/createObjVersion#"+itoa(k)+":size", p.Pos(c.Pos()), "size of the existing object's stat", "the version copy is preallocated with "+other+" instead of the existing object's size: when the new body is longer, the saved version is zero-padded to the new length (GET ?versionId returns more bytes than the version had)")
 		}
@@ -1309,7 +1390,7 @@ func more2PolicyDecidesAlone(p *Program, r *Report) {
 		r.Viol(rule, fnName(f)+"/GetBucketPolicy", p.Pos(f.Pos()), "VerifyAccess no longer reads the bucket policy")
 		return
 	}
-	acl := callsTo(f, "auth.verifyACL")
+	acl, _ := aclVerdicts(f)
 	okEdges, _ := nilTestEdgesCall(gp)
 	bad := ""
 	if len(okEdges) == 0 || len(acl) == 0 {
